@@ -163,6 +163,16 @@ def run(ctx: Ctx):
             ctx.report("C02 oracle: " + why, {"kind": "prog", "source": p["source"], "after": o.get("after")}, tag=classify(p, o, why))
     ctx.coverage["oracle"]["programs"] = m
     ctx.sample({"program": progs[0]["source"][-600:], "after": res[0].get("after", "")[-600:]})
+    # B2: the compared object (a list, or a tuple / namedtuple holding it) is mutated after the comparison: the created value must still make the
+    # disabled re-run pass (what is written is the value at comparison time)
+    from . import c17
+    ms = [s_ for s_ in (c17.gen_sched(ctx.rng, i) for i in range(24 if not ctx.thorough else 240)) if c17.plain_ok(s_["source"])]
+    for s_, o in zip(ms, pmap(run_prog, ms, chunksize=4)):
+        ctx.count(("mutation-schedule", s_["source"]), True)
+        why = judge(s_, o)
+        if why:
+            ctx.report("C02 oracle (value mutated after the comparison): " + why, {"kind": "prog", "source": s_["source"], "after": o.get("after")})
+    ctx.coverage["oracle"]["mutation_schedules"] = len(ms)
     # C: nested list / tuple snapshots vs Model/TreeAssign.v
     from .. import treeassign as ta
     nt_ = 500 if not ctx.thorough else 6000
